@@ -61,6 +61,7 @@ def plan(tier, seed):
     shards.append({"kind": "features"})
     for nm in corpus.extra_names():
         shards.append({"kind": "extra", "name": nm})
+        shards.append({"kind": "extra", "name": nm, "cmdline": "roots"})  # only the top files named on the protoc command line
     shards.append({"kind": "bundled"})
     return shards
 
@@ -241,8 +242,8 @@ def _check_py(b, fi, t, bad0, what):
         bad("python-type", f"{what}type {t!r}, expected {PY_OF.get(fi.kind)!r}")
 
 
-def run_program(protos, name, res: Result, w, each_first: bool = False):
-    b = Build(protos)
+def run_program(protos, name, res: Result, w, each_first: bool = False, cmdline: str = "all"):
+    b = Build(protos, cmdline=cmdline)
     try:
         try:
             b.run_protoc()
@@ -310,7 +311,9 @@ def run_shard(shard) -> Result:
         run_program(corpus.feature_protos(), "features", res, {"item": {"kind": "features"}})
     elif k == "extra":
         it = {"kind": "extra", "name": shard["name"]}
-        run_program(corpus.item_protos(it), "extra:" + shard["name"], res, {"item": it}, each_first=True)
+        if shard.get("cmdline"):
+            it["cmdline"] = shard["cmdline"]
+        run_program(corpus.item_protos(it), corpus.item_name(it), res, {"item": it}, each_first=True, cmdline=it.get("cmdline", "all"))
     elif k == "bundled":
         check_bundled(res)
     total = res.counters.get("programs", 0) + sum(v for kk, v in res.discards.items() if kk == "protoc-rejected-schema")
@@ -421,5 +424,5 @@ def replay(w):
     if w.get("kind") == "bundled":
         check_bundled(res)
     else:
-        run_program(corpus.item_protos(w["item"]), corpus.item_name(w["item"]), res, w, each_first=w["item"].get("kind") == "extra")
+        run_program(corpus.item_protos(w["item"]), corpus.item_name(w["item"]), res, w, each_first=w["item"].get("kind") == "extra", cmdline=w["item"].get("cmdline", "all"))
     return res.violations
